@@ -90,6 +90,7 @@ static void do_fit(void) {
   else if (!strcmp(kind, "weibull"))       { st = esl_wei_FitComplete(x, n, &p1, &p2, &p3);            out_fit(st, 3, p1, p2, p3); }
   else if (!strcmp(kind, "sxp"))           { st = esl_sxp_FitComplete(x, n, &p1, &p2, &p3);            out_fit(st, 3, p1, p2, p3); }
   else if (!strcmp(kind, "gev"))           { st = esl_gev_FitComplete(x, n, &p1, &p2, &p3);            out_fit(st, 3, p1, p2, p3); }
+  else if (!strcmp(kind, "gevcens"))       { st = esl_gev_FitCensored(x, n, z, a, &p1, &p2, &p3);      out_fit(st, 3, p1, p2, p3); }
   else h_out("bad-op");
   free(x);
 }
